@@ -47,3 +47,8 @@ def run(tier):
     v.coverage = tally.coverage(exhaustive=True)
     v.assumptions = ["indexing or mutating through a non-array (dynamic type confusion) is Unspecified in the model: crash-freedom only (C06)"]
     return v.finish()
+
+
+def replay(path):
+    import replaytool
+    return replaytool.replay("C05", path)
